@@ -111,8 +111,12 @@ def error_lines(err) -> Optional[List[str]]:
 
 
 def d_stack(s) -> dict:
+    err = error_lines(s.error)
+    if err is not None:
+        # payloads are newline-free: the model appends the newline itself
+        err = [l[:-1] if l.endswith("\n") else l + "<NO NEWLINE>" for l in err]
     return {"root": None if s.root is None else repr(s.root), "frames": [d_frame(f) for f in s.frames],
-            "leaf": None if s.leaf is None else repr(s.leaf), "error": error_lines(s.error)}
+            "leaf": None if s.leaf is None else repr(s.leaf), "error": err}
 
 
 def d_frame(f) -> dict:
